@@ -22,8 +22,10 @@ RULE = ('step functions / filters / post-processing / scan bodies: random DSL pr
         'counters, s[i]+=s[j], s[i]*=s[j], elementwise mod) on 7 pytree structures (1..5 scalars); '
         'trajectory: the full grid outer,inner in 0..4 x start_with_input plus random larger splits, 0..2 '
         'filters; nested scan: every ordered factorisation of every length <= 24 (thorough: lengths up to 360) '
-        'with ones inserted, xs = None / array / dict / tuple of arrays, length given or not, plus a malformed '
-        'stream (length mismatch, leaf mismatch, empty nesting, zero lengths); weights of length 0..6; '
+        'with ones inserted, xs = None / array / dict / tuple of arrays, length given or not, bodies with 1 or 2 '
+        'output leaves, plus bodies returning None / () as output; a malformed stream (length mismatch, leaf '
+        'mismatch, empty nesting with 0 / 1 / several rows and with length given, zero lengths in outer / middle '
+        '/ inner position, each also with output-less bodies); weights of length 0..6; '
         'DFI: linear equations, two solvers, N = 0..8, ties of round(); a case is non-trivial when at '
         'least two steps are taken with a non-identity program; distinct = distinct (op, program, input) hashes')
 
@@ -56,6 +58,15 @@ def run(ctx: common.Ctx):
   ctx.lean('DinoProofs.Properties.C14', 'C14.txt',
            extra_files=['DinoProofs/Lemmas/Comb.lean', 'Dino/Comb.lean', 'Dino/CombDrv.lean'])
   phase('lean')
+  # capability of the Lean tree under test: the general model with the number of output leaves
+  # (`nestedCheckpointScanOut`, driver op `nscano`); without it output-less bodies are probes only
+  try:
+    has_out = 'nscano' in open(os.path.join(common.LEAN, 'Dino', 'CombDrv.lean')).read()
+  except OSError:
+    has_out = False
+  if not has_out:
+    ctx.notes.append('the Lean tree under test has no driver op `nscano`: scan bodies returning None as output '
+                     'are evaluated as probes on the real code only, not compared with the model')
 
   rng = ctx.rng
   lines, checks = [], []   # checks: (op, inp, impl, decoder)
@@ -246,8 +257,9 @@ def run(ctx: common.Ctx):
       return {'p': leaves[0], 'q': leaves[1]}
     return tuple(leaves)
 
-  def nscan_case(ls, xs_kind, length, leaf_lengths=None, tag='valid', total=None):
-    """leaf_lengths: leading sizes of the xs leaves (default: prod(ls))."""
+  def nscan_case(ls, xs_kind, length, leaf_lengths=None, tag='valid', total=None, out='array'):
+    """leaf_lengths: leading sizes of the xs leaves (default: prod(ls)); out: 'array' (one array or a dict of two
+    arrays), 'none' / 'unit' (the body returns None / () as output: no output leaf)."""
     p = int(np.prod(ls)) if ls else 1
     steps = p if total is None else total
     cspec = D.random_spec(rng)
@@ -260,7 +272,7 @@ def run(ctx: common.Ctx):
 
     def make(mod):
       prog, kind = D.gen_prog(rng, dc + dx, mod=mod)
-      ysel = [int(v) for v in rng.integers(0, dc + dx, int(rng.integers(1, 4)))]
+      ysel = [int(v) for v in rng.integers(0, dc + dx, int(rng.integers(1, 4)))] if out == 'array' else []
       init = rng.integers(-4, 5, dc)
       leaves = None if shapes is None else [rng.integers(-3, 4, s) for s in shapes]
       # sequential-loop oracle (only meaningful when every leaf has `steps` rows)
@@ -281,29 +293,48 @@ def run(ctx: common.Ctx):
     def body(c, x):
       parts = [cspec.flatten(c)] + ([] if x is None else [jnp.ravel(l) for l in jax.tree_util.tree_leaves(x)])
       z = D.run_jax(prog, jnp.concatenate(parts))
+      if out != 'array':
+        return cspec.unflatten(z[:dc]), (None if out == 'none' else ())
       y = z[idx]
       return cspec.unflatten(z[:dc]), ({'a': y[:h], 'b': y[h:]} if split else y)
+    nout = 0 if out != 'array' else 2 if split else 1
     xs = build_xs(xs_kind, None if leaves is None else [jnp.asarray(l) for l in leaves])
     ltok = 'N' if leaves is None else '/'.join(D.imat(np.asarray(l).reshape(l.shape[0], int(np.prod(l.shape[1:])))) for l in leaves)
     inp = dict(carry_tree=cspec.name, prog=zp(prog), ysel=ysel, init=init.tolist(), xs_kind=xs_kind,
                xs=None if leaves is None else [l.tolist() for l in leaves], length=length,
-               nested_lengths=list(ls), tag=tag)
+               nested_lengths=list(ls), tag=tag, output=out, output_leaves=nout)
     ctx.dist[f'nscan:{tag}'] += 1
     ctx.dist[f'nscan:depth={len(ls)}'] += 1
     ctx.dist[f'nscan:xs={xs_kind}'] += 1
-    ctx.case(('nscan', inp['prog'], tuple(ysel), tuple(inp['init']), ltok, length, tuple(ls)),
-             nontrivial=tag != 'valid' or (p >= 2 and kind != 'identity'),
+    ctx.dist[f'nscan:output-leaves={nout}'] += 1
+    ctx.case(('nscan', inp['prog'], tuple(ysel), tuple(inp['init']), ltok, length, tuple(ls), out),
+             nontrivial=tag not in ('valid', 'valid-no-output') or (p >= 2 and kind != 'identity'),
              sample=inp if (tag == 'valid' and len(ls) == 3 and len(ctx.samples) < 6) else None)
     try:
       with warnings.catch_warnings():
         warnings.simplefilter('ignore')
         carry, ys = ti.nested_checkpoint_scan(body, to_tree(cspec, init), xs, length, nested_lengths=list(ls))
-      impl = ('ok', flat_of(carry), rows_of(ys))
+      if nout == 0:
+        # the stacked output of an output-less body is the same empty pytree (None / ())
+        same = ys is None if out == 'none' else (isinstance(ys, tuple) and len(ys) == 0)
+        ys_out = None if same else ('not-the-empty-output', repr(ys))
+      else:
+        ys_out = rows_of(ys)
+      impl = ('ok', flat_of(carry), ys_out)
     except Exception as e:  # pylint: disable=broad-except
       impl = (err_kind(e),)
-    add(f'comb Z nscan {inp["prog"]} {dc} {D.ivec(ysel)} {D.ivec(init)} {ltok} '
-        f'{"N" if length is None else length} {D.ivec(ls)}', 'nested_checkpoint_scan', inp, impl,
-        lambda o: (lambda t: ('ok', D.univec(t[1]), D.unimat(t[2])) if t[0] == 'ok' else (o,))(o.split(' ')))
+
+    def dec(o):
+      t = o.split(' ')
+      return ('ok', D.univec(t[1]), None if t[2] == 'N' else D.unimat(t[2])) if t[0] == 'ok' else (o,)
+    tail = f'{D.ivec(init)} {ltok} {"N" if length is None else length} {D.ivec(ls)}'
+    if nout:      # the model instance "at least one output leaf" (`nestedCheckpointScan`)
+      add(f'comb Z nscan {inp["prog"]} {dc} {D.ivec(ysel)} {tail}', 'nested_checkpoint_scan', inp, impl, dec)
+    if has_out:   # the general model (`nestedCheckpointScanOut`, number of output leaves as a parameter)
+      add(f'comb Z nscano {inp["prog"]} {dc} {D.ivec(ysel)} {nout} {tail}', 'nested_checkpoint_scan[out-leaves]',
+          inp, impl, dec)
+    if expect is not None and nout == 0:
+      expect = (expect[0], None)
     return impl, expect, inp, (body, cspec, init, xs)
 
   def with_ones(f):
@@ -346,17 +377,47 @@ def run(ctx: common.Ctx):
           ctx.expect(flat_of(c2) == impl[1] and rows_of(y2) == impl[2], 'nested-vs-flat-scan',
                      'nested_checkpoint_scan != jax.lax.scan', inp)
 
+  # bodies without an output leaf (`return carry, None` / `return carry, ()`), normal lengths: the nested scan
+  # returns the final carry of the sequential loop and the same empty output
+  nno = ctx.n(30, 150)
+  for ni in range(nno):
+    f = [[2, 3], [1], [4], [2, 2, 2], [3, 1, 2], [1, 1]][ni] if ni < 6 else facs[int(rng.integers(0, len(facs)))]
+    ls = list(f) if ni % 4 else with_ones(f)
+    p = int(np.prod(ls))
+    kind = xs_kinds[ni % len(xs_kinds)]
+    length = p if (ni % 3 == 0 or kind == 'none') else None
+    impl, expect, inp, fn = nscan_case(ls, kind, length, tag='valid-no-output', out='none' if ni % 3 else 'unit')
+    ctx.expect(impl[0] == 'ok', 'nested-scan-rejects-valid', f'valid factorisation rejected (output-less body): {impl}',
+               inp)
+    if impl[0] == 'ok':
+      ctx.expect(impl[1] == expect[0], 'nested-scan-carry-vs-loop',
+                 f'final carry != sequential loop (output-less body): {impl[1]} vs {expect[0]}', inp)
+      ctx.expect(impl[2] is None, 'nested-scan-outputs-vs-loop',
+                 f'an output-less body does not give the empty output: {impl[2]}', inp)
+      if ni % 5 == 0:
+        body, cspec, init, xs = fn
+        with ctx.impl('flat-scan-exception', inp):
+          c2, y2 = jax.lax.scan(body, to_tree(cspec, init), xs, p if xs is None else None)
+          ctx.expect(flat_of(c2) == impl[1] and jax.tree_util.tree_leaves(y2) == [], 'nested-vs-flat-scan',
+                     'nested_checkpoint_scan != jax.lax.scan (output-less body)', inp)
+
   # malformed / corner stream: the validation logic
-  nmal = ctx.n(40, 200)
+  modes = ['length-mismatch', 'xs-short', 'xs-long', 'leaf-mismatch', 'empty-nesting', 'empty-nesting-1',
+           'zero-outer', 'zero-inner', 'zero-only', 'zero-middle', 'length-ok',
+           'empty-nesting-0', 'empty-nesting-length', 'noout-zero-outer', 'noout-zero-middle', 'noout-zero-inner',
+           'noout-zero-all', 'noout-empty-nesting', 'noout-length-mismatch', 'noout-xs-short']
+  nmal = ctx.n(3 * len(modes), 12 * len(modes))
   for mi in range(nmal):
-    mode = ['length-mismatch', 'xs-short', 'xs-long', 'leaf-mismatch', 'empty-nesting', 'empty-nesting-1',
-            'zero-outer', 'zero-inner', 'zero-only', 'zero-middle', 'length-ok'][mi % 11]
-    base = facs[int(rng.integers(0, len(facs)))] if mi >= 11 else [2, 3]
+    mode = modes[mi % len(modes)]
+    base = facs[int(rng.integers(0, len(facs)))] if mi >= len(modes) else [2, 3]
     ls = list(base)
     p = int(np.prod(ls))
     kind = str(rng.choice(['array', 'dict', 'tuple']))
     length, leaf_lengths, total = None, None, None
     should_fail = True
+    out = 'array'
+    if mode.startswith('noout-'):
+      out = 'none' if rng.random() < 0.7 else 'unit'
     if mode == 'length-mismatch':
       length = p + int(rng.choice([-1, 1, 2]))
       if rng.random() < 0.3:
@@ -386,8 +447,35 @@ def run(ctx: common.Ctx):
       ls, total, should_fail = [0], 0, False
     elif mode == 'length-ok':
       length, should_fail = p, False
-    impl, expect, inp, _ = nscan_case(ls, kind, length, leaf_lengths=leaf_lengths, tag=mode, total=total)
-    if mode in ('length-mismatch', 'xs-short', 'xs-long', 'leaf-mismatch', 'empty-nesting'):
+    elif mode == 'empty-nesting-0':
+      ls, total = [], 0
+    elif mode == 'empty-nesting-length':
+      # math.prod([]) = 1: length 1 is consistent (then IndexError / TypeError), every other one a ValueError
+      ls, total = [], int(rng.choice([0, 1, 1, 2, 5]))
+      length = int(rng.choice([0, 1, 1, total]))
+      if rng.random() < 0.3:
+        kind = 'none'
+    elif mode == 'noout-zero-outer':
+      # the same nestings that are rejected with an output leaf are accepted without one
+      ls, total, should_fail = [0] + ls, 0, False
+      length = 0 if rng.random() < 0.5 else None
+      if rng.random() < 0.3:
+        kind, length = 'none', 0
+    elif mode == 'noout-zero-middle':
+      ls, total, should_fail = ls[:1] + [0] + ls[1:], 0, False
+    elif mode == 'noout-zero-inner':
+      ls, total, should_fail = ls + [0], 0, False
+    elif mode == 'noout-zero-all':
+      ls, total, should_fail = [0] * int(rng.integers(1, 4)), 0, False
+    elif mode == 'noout-empty-nesting':
+      ls, total = [], int(rng.choice([0, 1, 1, 3]))
+    elif mode == 'noout-length-mismatch':
+      length = p + int(rng.choice([-1, 1, 2]))
+    elif mode == 'noout-xs-short':
+      total = max(p - int(rng.integers(1, 3)), 0)
+    impl, expect, inp, _ = nscan_case(ls, kind, length, leaf_lengths=leaf_lengths, tag=mode, total=total, out=out)
+    if mode in ('length-mismatch', 'xs-short', 'xs-long', 'leaf-mismatch', 'empty-nesting', 'empty-nesting-0',
+                'noout-empty-nesting', 'noout-length-mismatch', 'noout-xs-short'):
       # the property: inconsistent lengths are rejected
       ctx.expect(impl[0] != 'ok', 'nested-scan-accepts-mismatch',
                  f'inconsistent length / nesting accepted ({mode})', inp)
@@ -397,7 +485,10 @@ def run(ctx: common.Ctx):
   ctx.notes.append('nested_lengths with a zero in a non-innermost position (e.g. [0, 3] for an empty xs) '
                    'raise ValueError (jnp.concatenate of an empty sequence) although the flat scan of the '
                    'empty input is valid; the model mirrors this (theorem '
-                   'nestedCheckpointScan_zero_outer_rejected), T14.4 is stated for positive outer lengths')
+                   'nestedCheckpointScan_zero_outer_rejected), T14.4 is stated for positive outer lengths; a body '
+                   'returning None / () as output (no output leaf) is accepted with such nestings and returns '
+                   '(init, None) (tree_map(jnp.concatenate, None) calls nothing): theorems '
+                   'nestedCheckpointScanOut_ok_iff / nestedCheckpointScanOut_no_output')
 
   phase('nested-scan')
   # ================================================================== accumulate_repeated
@@ -619,7 +710,8 @@ def run(ctx: common.Ctx):
       a = (jnp.asarray(init), jnp.asarray(xs))
       vn, gn = jax.value_and_grad(nested, argnums=(0, 1))(*a)
       vf, gf = jax.value_and_grad(flat, argnums=(0, 1))(*a)
-      vr, gr = jax.jit(jax.value_and_grad(ref, argnums=(0, 1)))(*a) if (p <= 8 or not ctx.quick) else (vf, gf)
+      # reference: a really unrolled Python loop (p <= 12 here), differentiated without lax.scan, in every tier
+      vr, gr = jax.value_and_grad(ref, argnums=(0, 1))(*a)
       ok_v = dinoutil.relerr(vn, vf) < 1e-12 and dinoutil.relerr(vn, vr) < 1e-12
       ok_f = all(dinoutil.relerr(x, y) < 1e-10 for x, y in zip(gn, gf))
       ok_r = all(dinoutil.relerr(x, y) < 1e-10 for x, y in zip(gn, gr))
@@ -629,6 +721,8 @@ def run(ctx: common.Ctx):
       ctx.expect(ok_r, 'nested-grad-vs-unrolled', 'jax.grad through nested_checkpoint_scan != grad of the unrolled loop',
                  inp)
 
+  ctx.notes.append('gradient probes: the reference of `nested-grad-vs-unrolled` is a really unrolled Python loop '
+                   '(no lax.scan), differentiated eagerly, for every drawn length (p <= 12) in both tiers')
   phase('gradients')
   if not ctx.quick:
     ctx.leanchecker(['DinoProofs.Properties.C14'])
